@@ -17,7 +17,8 @@ EXTENDS Naturals, Sequences, FiniteSets, TLC
 CONSTANTS Threads,      \* user threads, e.g. {"t1", "t2"}
           Mixes,        \* set of [thread -> operation record [op, s, k]]: the programs explored
           InitScopes,   \* subset of {"s1", "s2"}: scopes that exist (open) initially
-          PreCached     \* set of <<scope, key>> already resolved before the threads start
+          PreCached,    \* set of <<scope, key>> already resolved before the threads start
+          NewCtxIndependent   \* TRUE: threads create scopes with a context of their own (not derived from the parent's)
 
 NONE == "-"
 Range(s) == {s[i] : i \in DOMAIN s}
@@ -85,8 +86,9 @@ StepOrd(p, label, order) == hist' = Append(hist, <<p, label, IF Fwd(order) THEN 
 
 \* the scopes whose context is cancelled when s's context is: s and every existing descendant
 \* (child scopes are created with the parent scope's context)
+CtxDerived(c) == c \in {"s1", "s2"} \/ ~NewCtxIndependent
 RECURSIVE Desc(_, _)
-Desc(s, ex) == {s} \cup UNION {Desc(c, ex) : c \in {x \in ex : parent[x] = s}}
+Desc(s, ex) == {s} \cup UNION {Desc(c, ex) : c \in {x \in ex : parent[x] = s /\ CtxDerived(x)}}
 
 (***************************************************************************)
 (* Initial state                                                           *)
@@ -249,7 +251,7 @@ CreateStart(p) ==   \* gate K_check: disposed check, then the new scope object e
        ELSE /\ exists' = [exists EXCEPT ![n] = TRUE]
             /\ parent' = [parent EXCEPT ![n] = IF f.s = "prov" THEN NONE ELSE f.s]
             \* a child created with the parent scope's context is born cancelled if that context already is
-            /\ ctxDone' = [ctxDone EXCEPT ![n] = f.s # "prov" /\ ctxDone[f.s]]
+            /\ ctxDone' = [ctxDone EXCEPT ![n] = f.s # "prov" /\ ctxDone[f.s] /\ ~NewCtxIndependent]
             /\ stack' = SetTop(p, [f EXCEPT !.pc = IF f.s = "prov" THEN "track" ELSE "addchild"])
             /\ UNCHANGED <<disposed, inst, creating, disp, drained, children, done, result, wstate>>
     /\ UNCHANGED <<pvars, gvars>>
